@@ -17,13 +17,13 @@ type Lit struct {
 	Ys []Lit  `json:"y,omitempty"` // fn values, parallel to Xs
 }
 
-func LB(b bool) Lit       { return Lit{T: "b", B: b} }
-func LI(i int64) Lit      { return Lit{T: "i", I: i} }
-func LS(s string) Lit     { return Lit{T: "s", S: s} }
-func LSet(xs ...Lit) Lit  { return Lit{T: "set", Xs: xs} }
-func LTup(xs ...Lit) Lit  { return Lit{T: "tup", Xs: xs} }
-func LFn(k, v []Lit) Lit  { return Lit{T: "fn", Xs: k, Ys: v} }
-func LDefault() Lit       { return Lit{T: "dflt"} }
+func LB(b bool) Lit      { return Lit{T: "b", B: b} }
+func LI(i int64) Lit     { return Lit{T: "i", I: i} }
+func LS(s string) Lit    { return Lit{T: "s", S: s} }
+func LSet(xs ...Lit) Lit { return Lit{T: "set", Xs: xs} }
+func LTup(xs ...Lit) Lit { return Lit{T: "tup", Xs: xs} }
+func LFn(k, v []Lit) Lit { return Lit{T: "fn", Xs: k, Ys: v} }
+func LDefault() Lit      { return Lit{T: "dflt"} }
 
 // V returns the canonical value the literal denotes in TLA+.
 func (l Lit) V() V {
@@ -164,8 +164,8 @@ type Sub struct {
 	Val  Expr   `json:"val"`
 }
 
-func ELit(l Lit) Expr                 { return Expr{Op: "lit", Lit: &l} }
-func EVar(i int) Expr                 { return Expr{Op: "var", Var: i} }
+func ELit(l Lit) Expr                  { return Expr{Op: "lit", Lit: &l} }
+func EVar(i int) Expr                  { return Expr{Op: "var", Var: i} }
 func EOp(op string, args ...Expr) Expr { return Expr{Op: op, Args: args} }
 
 // Binders returns how many new slots the node binds for its Body (0 if none).
